@@ -14,6 +14,7 @@ import Bubus.Proofs.RunLoop
 import Bubus.Proofs.Expect
 import Bubus.Proofs.Wal
 import Bubus.Proofs.Finished
+import Bubus.Proofs.InlineDone
 namespace Bubus.Examples
 open Bubus
 
@@ -140,5 +141,26 @@ example : ((run {} complete).map fun w => ((w.inst 0).st, (w.inst 1).st, (w.ev 0
 example : ((run {} timeoutRun).map fun w =>
       ((List.range w.ni).all fun i => (w.inst i).st == .finished,
        (List.range w.ne).all fun e => (w.ev e).results.all (·.terminal))) = some (true, true) := by decide +kernel
+
+/-- non-vacuity of the serial-bus theorems about handlers run inside an await (`Proofs/InlineDone.lean`): in the history `nested`
+    instance 1 runs inside the await of instance 0 (executor link), instance 0 is suspended, instance 1 executes, and following
+    the executor links from 1 reaches 0 (`C05_whatever_executes_while_a_handler_is_alive_runs_inside_it`); after the first 26
+    labels of `timeoutRun` the body of instance 0 has ended (cancelled by its deadline) and instance 1 has finished
+    (`C10_when_a_handler_has_ended_every_handler_it_ran_inline_has_finished`); both prefixes are serial runs -/
+example : ((run {} nested).map fun w => ((w.inst 1).exec, (w.inst 0).st, (w.inst 1).st, iterExec w 1 1)) =
+    some (.inst 0, .awaiting 1, .running, some 0) := by decide
+example : SerialRun (timeoutRun.take 26) := by
+  show ∀ l ∈ timeoutRun.take 26, serialLabel l = true
+  decide
+example : ((run {} (timeoutRun.take 26)).map fun w => ((w.inst 1).exec, (w.inst 0).st, (w.inst 1).st)) =
+    some (.inst 0, .ended, .finished) := by decide +kernel
+
+/-- non-vacuity of `C05_the_await_suspends_only_when_every_queue_is_empty` and of
+    `C17_the_wal_line_is_written_after_every_selected_handler_has_finished` / `C01_a_selected_handler_is_passed_over_…`: the
+    polling yield is enabled in a reachable state whose queues are empty (instance 0 of `nested`, once its child has been
+    processed and before the await returns, is not polling any more - so the state right after `awaitBegin`, with the child
+    still queued, is the one where the yield is *disabled*) -/
+example : ((run {} (nested.take 14)).map fun w => ((w.bus 0).queue, (step w (.pollYield 0)).isSome, (step w (.take (.inst 0) 0 1)).isSome)) =
+    some ([1], false, true) := by decide
 
 end Bubus.Examples
